@@ -99,6 +99,18 @@ CHECKS = {
         "line is compared with the one-statement-per-line layout of the same tokens, and CRLF vs LF through the built-in reader.",
    note="trusted: the custom reader strips CR like the built-in readers; the committed generated scanner lex._tokenizer.c is what is observed",
    design="4/C13"),
+ "C16": dict(
+   technique="complete enumeration by execution (one fresh process per history) with an observer module logging createObject + hooked dump for object values + ASan/UBSan",
+   text="{trusted, untrusted} x 11 grant histories (never, granted, granted-used-then-cleared, granted-then-cleared, granted after a first refused "
+        "compile, other module, prefix, longer name, empty name, upper-case name, re-granted after clear) x {module imported here, loaded earlier by a "
+        "trusted context, not loaded} x 16 sites (top level, default/labelled constructor, function body called/uncalled, loop, handler, nested in "
+        "tab/tup, copy constructor, method chain, typed parameter, dead branch, typed declaration, typed parameter/return declarations) x spellings "
+        "(vmod, VMOD, Vmod) for the observer module vmod and for the real csv module, through Parser::parse and the C API, in the context and in a "
+        "clone of it; plus import by path and include in every position. Decision function allowed = trusted or granted at compile time, compared "
+        "with the create-event log (phase-marked) and the object values found in the dumps; allowed cases must really create (the check cannot pass "
+        "by refusing everything).",
+   note="trusted: vmod observer built from /verif/vmod against the working tree; a typed null (x:vmod) is not an object; upper/mixed-case spellings are not module names at all",
+   design="4/C16"),
  "C06": dict(
    technique="reference-interpreter monitor (python model of the documented loop/conditional semantics) over generated programs + post-run invariant hooks (control stack, symbol flags) + ASan/UBSan",
    text="Loop headers are enumerated bounded-exhaustively (bounds in {-2..2, INT64_MIN..+2, INT64_MAX-2.., null} x steps {absent,1,2,3,0,-1,null,INT64_MAX} x "
